@@ -22,6 +22,7 @@ import re
 from .facts import show, unwrap
 
 MAX_PATHS = 4096
+INT_TYPES = {"u8", "u16", "u32", "u64", "u128", "usize", "i8", "i16", "i32", "i64", "i128", "isize"}
 
 
 class TooManyPaths(Exception):
@@ -514,7 +515,14 @@ class SymX:
                 return self.ev(e["e"], st)
             return [(s, ("un", e["op"], v)) for s, v in self.ev(e["e"], st)]
         if k == "bin":
-            return [(s, ("bin", e["op"], vals[0], vals[1])) for s, vals in self.seq([e["a"], e["b"]], st)]
+            outs = []
+            for s, vals in self.seq([e["a"], e["b"]], st):
+                t = ("bin", e["op"], vals[0], vals[1])
+                if e["op"] in ("Sub", "Mul", "Div", "Rem", "Shl", "Shr") and (e.get("ty") or "") in INT_TYPES:
+                    s = s.fork()
+                    s.log(("call", "<arith>", [("lit", e["op"]), vals[0], vals[1], ("lit", e.get("ty"))], e))
+                outs.append((s, t))
+            return outs
         if k == "cast":
             return [(s, ("cast", e.get("ty"), v)) for s, v in self.ev(e["e"], st)]
         if k == "tup":
@@ -524,7 +532,12 @@ class SymX:
         if k == "repeat":
             return [(s, ("array", [v])) for s, v in self.ev(e["e"], st)]
         if k == "index":
-            return [(s, ("index", vals[0], vals[1])) for s, vals in self.seq([e["b"], e["i"]], st)]
+            outs = []
+            for s, vals in self.seq([e["b"], e["i"]], st):
+                s = s.fork()
+                s.log(("call", "<index>", [vals[0], vals[1]], e))
+                outs.append((s, ("index", vals[0], vals[1])))
+            return outs
         if k == "struct":
             names = [f["name"] for f in e["fields"]]
             outs = []
